@@ -19,6 +19,8 @@ import time
 from vf import core
 
 NPROC = int(os.environ.get("VERIF_JOBS", str(min(16, os.cpu_count() or 4))))
+# where evidence/ and replays/ are written; only set for mutant-validation runs so that they never clobber real evidence
+OUT = os.environ.get("VERIF_OUT", core.ROOT)
 
 
 def load_known():
@@ -184,7 +186,7 @@ def main(argv=None):
     known_lines = []
     seen_kinds = set()
     known_keys_printed = set()
-    os.makedirs(os.path.join(core.ROOT, "replays"), exist_ok=True)
+    os.makedirs(os.path.join(OUT, "replays"), exist_ok=True)
     n_known = 0
     n_new = 0
     for (kind, key), n in viol_kinds.items():
@@ -210,7 +212,7 @@ def main(argv=None):
         h = hashlib.sha1(json.dumps(v["case"], sort_keys=True).encode()).hexdigest()[:12]
         rp = os.path.join("replays", f"{prop}-{v['kind'].replace(' ', '_').replace('/', '_')[:40]}-{h}.json")
         core.dump(
-            os.path.join(core.ROOT, rp),
+            os.path.join(OUT, rp),
             {"property": prop, "kind": v["kind"], "key": v["key"], "detail": v["detail"], "seed": seed,
              "tier": tier, "shard": v.get("shard"), "case": v["case"]},
         )
@@ -251,8 +253,8 @@ def main(argv=None):
             "wall_s": round(wall, 2),
             "violations": n_new,
         }
-        os.makedirs(os.path.join(core.ROOT, "evidence"), exist_ok=True)
-        core.dump(os.path.join(core.ROOT, "evidence", f"{prop}.json"), ev)
+        os.makedirs(os.path.join(OUT, "evidence"), exist_ok=True)
+        core.dump(os.path.join(OUT, "evidence", f"{prop}.json"), ev)
 
     # ---- interface lines -------------------------------------------------------------------------
     for line in known_lines:
